@@ -195,6 +195,10 @@ pub fn gen_cfg(rng: &mut Rng) -> Cfg {
         upper: rng.below(4) as usize,
         prealloc: false,
         sha2: false,
+        panic: 0,
+        // small rollback segments in two of three configurations: roll-over and pruning of
+        // segment files happen within short histories
+        segsz: *rng.pick(&[0u64, 4096, 16384]),
     }
 }
 
